@@ -219,36 +219,54 @@ class Program:
                 c.bases.append(self.resolve_expr_static(c.mod, b))
 
     def _canonicalise_reexports(self):
-        """a function or class that lives in a private module (leading underscore) and is
-        re-exported under the same name by a public module is known by its public name
-        (`authentication.verify_signable` stays that when its body moves to `_verify.py`): rules,
-        call events and sites keep referring to the documented location"""
-        renames = {}
-        for m in self.modules.values():
-            if m.short.startswith("_"):
+        """A private module (leading underscore) whose names a public module imports is analysed
+        as part of that public module: its functions and classes are known by the public module's
+        name (`authentication.verify_signable` stays that when its body moves to `_verify.py`,
+        helpers that move along become `authentication._helper`), its constants are visible there,
+        and every rule that groups code by module ("the validators of common", "private helpers of
+        the signing module") sees the moved code where it logically belongs.  Files, line numbers
+        and name resolution inside the private module are unaffected."""
+        hosts = {}
+        for P in self.modules.values():
+            if not P.short.startswith("_") or P.short.startswith("__"):
                 continue
-            for bound, imp in m.imports.items():
-                if imp[0] != "from" or imp[2] != bound:
+            counts = {}
+            for m in self.modules.values():
+                if m is P or m.short.startswith("_"):
                     continue
-                src = self.modules.get(imp[1])
-                if src is None or not src.short.startswith("_") or src.short.startswith("__"):
+                n = sum(1 for imp in m.imports.values() if imp[0] == "from" and imp[1] == P.name)
+                if n:
+                    counts[m.short] = n
+            if counts:
+                best = max(sorted(counts), key=lambda k: counts[k])
+                hosts[P.name] = (P, self.by_short[best])
+        for P, H in hosts.values():
+            P.real_short = P.short
+            for name in list(P.funcs) + list(P.classes):
+                if name in H.funcs or name in H.classes:
                     continue
-                if bound in src.funcs or bound in src.classes:
-                    renames.setdefault((src.short, bound), m.short)
-        for (src_short, name), pub_short in renames.items():
-            old_prefix = src_short + "." + name
-            new_prefix = pub_short + "." + name
-            if new_prefix in self.funcs or new_prefix in self.classes:
-                continue
-            for q in [q for q in self.funcs if q == old_prefix or q.startswith(old_prefix + ".")]:
-                fi = self.funcs[q]
-                fi.qualname = new_prefix + q[len(old_prefix):]
-                fi.defined_as = q
-                self.funcs[fi.qualname] = fi
-            for q in [q for q in self.classes if q == old_prefix]:
-                ci = self.classes[q]
-                ci.qualname = new_prefix
-                self.classes[new_prefix] = ci
+                old_prefix = P.short + "." + name
+                new_prefix = H.short + "." + name
+                if new_prefix in self.funcs or new_prefix in self.classes:
+                    continue
+                for q in [q for q in self.funcs if q == old_prefix or q.startswith(old_prefix + ".")]:
+                    fi = self.funcs[q]
+                    fi.qualname = new_prefix + q[len(old_prefix):]
+                    fi.defined_as = q
+                    self.funcs[fi.qualname] = fi
+                if old_prefix in self.classes:
+                    ci = self.classes[old_prefix]
+                    ci.qualname = new_prefix
+                    self.classes[new_prefix] = ci
+            for name, fi in P.funcs.items():
+                imp = H.imports.get(name)
+                # not part of the public module's surface: an internal helper of the split
+                fi.module_internal = not (imp is not None and imp[0] == "from" and imp[1] == P.name)
+            for cname, vals in P.consts.items():
+                if cname not in H.consts and cname not in H.funcs and cname not in H.classes and cname not in H.imports:
+                    H.consts[cname] = vals
+                    H.__dict__.setdefault("const_origin", {})[cname] = P
+            P.short = H.short
 
     def _index_body(self, m, body, guarded):
         for n in body:
